@@ -50,7 +50,7 @@ def items(tier):
                 out.append(dict(kind="scaling", id="scaling-%s-%s-n%d" % (agg, which, n), n=n, which=which, agg=agg))
     # scaling AND an active set that cuts on the side of the extreme: the scale refers to the extreme of the ACTIVE entries
     for which in ("max", "min"):
-        for agg in ("PNorm2", "KS"):
+        for agg in ("PNorm2", "KS", "SoftMinMax"):
             out.append(dict(kind="scaling", id="scaling-%s-%s-n3-activeset" % (agg, which), n=3, which=which, agg=agg, active=True))
     for n in b["bounds_n"]:
         for sgn in (+1, -1):
